@@ -54,16 +54,36 @@ def alaw_value13(code):
     return y if positive else -y
 
 
-def ulaw_to_pcm16(codes):
+_TABLES = {}
+
+
+def _table(law):
+    """the 256 decoder output values as 16-bit PCM, tabulated once from the scalar definitions
+    above (so that files of tens of thousands of samples can be expanded by indexing)"""
+    if law not in _TABLES:
+        if law == "ulaw":
+            t = [4 * ulaw_value14(c) for c in range(256)]
+        elif law == "alaw":
+            t = [8 * alaw_value13(c) for c in range(256)]
+        else:
+            raise ValueError(law)
+        _TABLES[law] = np.array(t, dtype=np.int16)
+    return _TABLES[law]
+
+
+def _lookup(law, codes):
     codes = np.asarray(codes)
-    out = np.array([4 * ulaw_value14(c) for c in codes.reshape(-1)], dtype=np.int16)
-    return out.reshape(codes.shape)
+    if codes.size and (int(codes.min()) < 0 or int(codes.max()) > 255):
+        raise ValueError("G.711 character signals are 0..255")
+    return _table(law)[codes.astype(np.int64)]
+
+
+def ulaw_to_pcm16(codes):
+    return _lookup("ulaw", codes)
 
 
 def alaw_to_pcm16(codes):
-    codes = np.asarray(codes)
-    out = np.array([8 * alaw_value13(c) for c in codes.reshape(-1)], dtype=np.int16)
-    return out.reshape(codes.shape)
+    return _lookup("alaw", codes)
 
 
 def expand(coding, codes):
@@ -171,6 +191,12 @@ def selftest():
             got, _ = sf.read(io.BytesIO(codes), format="RAW", subtype=sub, samplerate=8000,
                              channels=1, dtype="int16")
             assert np.array_equal(got, fn(np.arange(256))), sub
+    # the tabulated expansion is the scalar definition, element by element, for any shape
+    for fn, one, k in ((ulaw_to_pcm16, ulaw_value14, 4), (alaw_to_pcm16, alaw_value13, 8)):
+        for codes in (np.arange(256), np.arange(255, -1, -1).reshape(64, 4), np.array([7]), np.zeros(0, int)):
+            got = fn(codes)
+            assert got.dtype == np.int16 and got.shape == codes.shape
+            assert got.reshape(-1).tolist() == [k * one(c) for c in codes.reshape(-1)]
     assert ulaw_to_pcm16(np.arange(256)).min() == -32124
     assert alaw_to_pcm16(np.arange(256)).max() == 32256
     return True
